@@ -1,7 +1,7 @@
 (* C02 — the regenerated tables: no mismatching row, every struct follows the README's packing rule (by computation). *)
 From Coq Require Import Arith List String Bool.
-From FEC Require Import Models.PackingM Models.LayoutM Models.LayoutTables Proofs.PackingP Proofs.LayoutP
-     Generated.LayoutCpp Generated.LayoutPyProbe Generated.LayoutExc.
+From FEC Require Import Models.PackingM Models.LayoutM Models.LayoutValuesM Models.LayoutTables Proofs.PackingP Proofs.LayoutP
+     Generated.LayoutCpp Generated.LayoutPyProbe Generated.LayoutExc Generated.LayoutValues.
 Import ListNotations.
 
 Lemma layouts_agree_b : paths_agree cpp_layouts layout_exceptions cpp_layouts py_layouts py_layout_paths = true.
@@ -37,3 +37,13 @@ Proof. intros s m Hs Hm Hn. exact (floats_aligned4_sound s (proj1 (forallb_foral
 (* no member is empty, so the generic no-overlap theorem applies to every struct *)
 Lemma members_nonempty_b : forallb (fun s => forallb (fun m => Nat.ltb 0 (ct_size (m_type m))) (s_members s)) cpp_layouts = true.
 Proof. vm_compute. reflexivity. Qed.
+
+(* every value row: the number written at a C++ member's offset is the number Python shows (times the tabulated scale), and back *)
+Lemma values_b : forallb value_ok value_rows = true.
+Proof. vm_compute. reflexivity. Qed.
+
+Lemma values_agree_forall : forall r, In r value_rows -> value_agrees r.
+Proof. exact (values_forall _ values_b). Qed.
+
+Lemma value_rows_nonempty : value_rows <> [].
+Proof. vm_compute. discriminate. Qed.
